@@ -314,18 +314,55 @@ def main():
                 broken.append({"kind": "correspondence", "name": "harness run (cmd/%s)" % cfgp["harness"], "detail": out[-2500:]})
             else:
                 result = json.load(open(rp))
+        # 2a. the translator's differential check (harness/cmd/gencheck): the generated Gallina
+        # definitions of this property evaluated on inputs on which the real Go functions were run
+        gc_dirs = []
+        if result is not None and cfgp.get("gencheck") and not a.replay:
+            have_hooks = os.path.exists(os.path.join(REPO, "dhash", "export_gentie_verif.go"))
+            if not have_hooks and REPO != "/repo":
+                notes.append("gencheck skipped: the tree under test lacks the export_gentie_verif.go hook files")
+            else:
+                rcg, outg, bing = build_go("gencheck")
+                gdir = os.path.join(rundir, "gencheck")
+                os.makedirs(gdir, exist_ok=True)
+                if rcg == 0:
+                    genv = goenv()
+                    genv["VERIF_GENCHECK_OWNER"] = pid
+                    genv["VERIF_COQ_GEN"] = os.path.join(COQ, "gen")
+                    rcg, outg = sh([bing, "-seed", str(seed), "-tier", tier, "-out", gdir], cwd=HARNESS, env=genv, timeout=600)
+                gp = os.path.join(gdir, "result.json")
+                if rcg != 0 or not os.path.exists(gp):
+                    broken.append({"kind": "correspondence", "name": "gencheck (translator vs real Go functions) build/run", "detail": outg[-2000:]})
+                else:
+                    gres = json.load(open(gp))
+                    for f in gres.get("oracle_failures") or []:
+                        result.setdefault("oracle_failures", [])
+                        result["oracle_failures"] = (result.get("oracle_failures") or []) + [f]
+                    result["evaluations"] = result.get("evaluations", 0) + gres.get("evaluations", 0)
+                    dist = result.get("distribution") or {}
+                    dist["gencheck:cases (generated Gallina definition vs the real Go function on the same inputs)"] = gres.get("evaluations", 0)
+                    dist["gencheck:definitions"] = len(gres.get("families") or {})
+                    result["distribution"] = dist
+                    fams = result.get("families") or {}
+                    for k2, v2 in (gres.get("families") or {}).items():
+                        fams["gencheck:" + k2] = v2
+                    result["families"] = fams
+                    gc_dirs.append(gdir)
         if result is not None:
             shards = sorted(f for f in os.listdir(rundir) if f.startswith("cases_") and f.endswith(".v"))
             tsh = time.time()
             with concurrent.futures.ThreadPoolExecutor(max_workers=16) as ex:
-                for fn, idx, err, dt in ex.map(run_shard, [(rundir, f, 1500) for f in shards]):
+                jobs = [(rundir, f, 1500) for f in shards]
+                for gd in gc_dirs:
+                    jobs += [(gd, f, 1500) for f in sorted(os.listdir(gd)) if f.startswith("cases_") and f.endswith(".v")]
+                for (jd, _, _), (fn, idx, err, dt) in zip(jobs, ex.map(run_shard, jobs)):
                     if idx is None:
                         shard_errors.append({"file": fn, "error": err})
                     else:
                         if idx:
-                            descs = json.load(open(os.path.join(rundir, fn[:-2] + ".json")))
+                            descs = json.load(open(os.path.join(jd, fn[:-2] + ".json")))
                             for i in idx:
-                                mismatches.append({"family": descs["family"], "file": fn, "index": descs["offset"] + i,
+                                mismatches.append({"family": ("gencheck:" if jd != rundir else "") + descs["family"], "file": fn, "index": descs["offset"] + i,
                                                    "case": descs["cases"][i] if i < len(descs["cases"]) else None})
             coq_eval_s = time.time() - tsh
             if shard_errors:
